@@ -33,7 +33,7 @@ chk.extra['rule'] = ('a case = molecule of 1-3 residues, each a presentation (re
                      '(renamed, permuted, missing or extra atoms); distinct = distinct protocol line')
 chk.trusted.append('harness/c04.py: presentation generator, spy around make_reference, encoding of node dictionaries '
                    '(atomname/element/PTM_atom split off, values as repr strings, position/graph not sent), oracle')
-chk.lean(['VermouthProps.C04', 'VermouthProps.C04_Ref', 'VermouthProps.C04_Pipeline'], 'driver_c04')
+chk.lean(['VermouthProps.C04', 'VermouthProps.C04_Ref', 'VermouthProps.C04_Patch', 'VermouthProps.C04_Pipeline'], 'driver_c04')
 
 import networkx as nx
 import numpy as np
